@@ -389,6 +389,10 @@ def run(ctx, rep):
     from rules import c04_recursion
     c04_recursion.run_fanout(ctx, rep, rid="R-C12-fanout")
     c04_recursion.run_depth(ctx, rep, rid="R-C12-depth")
+    c04_recursion.run_fmtself(ctx, rep, rid="R-C12-fmtself")
+    # the server slices the text it stores with offsets computed on the pre-processed text: no step may change the length of the text
+    from rules.c08 import rule_prestep
+    rule_prestep(ctx, rep, rid="R-C12-prestep")
     # spans are byte offsets into the pre-processed text but are applied to the original text: the pre-processor must keep every byte position
     from rules import c05_blank
     c05_blank.run(ctx, rep, rid="R-C12-blank")
